@@ -4,19 +4,23 @@ package through an in-memory overlay and records the outcome (proved / bounded /
 import json, subprocess, glob, os, sys
 dirs = sys.argv[1:] or ['refactorings', 'refactorings_free']
 tot = {'proved':0,'bounded':0,'alarm':0}
-for base in dirs:
-    for d in sorted(glob.glob('/verif/%s/*' % base)):
-        m = json.load(open(d+'/meta.json'))
-        res = 'proved'; notes = []
-        for prop in m['properties']:
-            r = subprocess.run(['/verif/bin/gocv','checkpatch',prop,d+'/patch.diff'],capture_output=True,text=True)
-            out = r.stdout
-            if 'VIOLATION' in out or r.returncode not in (0,):
-                res = 'alarm'; notes += [l[:180] for l in out.splitlines() if l.startswith(prop+' ')][:2]
-            elif 'BOUNDED:' in out and res != 'alarm':
-                res = 'bounded'; notes += [l[:200] for l in out.splitlines() if l.startswith('BOUNDED:')][:2]
-        m['result'] = res; m['result_notes'] = notes
-        json.dump(m, open(d+'/meta.json','w'), indent=1)
+from concurrent.futures import ThreadPoolExecutor
+def one(d):
+    m = json.load(open(d+'/meta.json'))
+    res = 'proved'; notes = []
+    for prop in m['properties']:
+        r = subprocess.run(['/verif/bin/gocv','checkpatch',prop,d+'/patch.diff'],capture_output=True,text=True)
+        out = r.stdout
+        if 'VIOLATION' in out or r.returncode not in (0,):
+            res = 'alarm'; notes += [l[:180] for l in out.splitlines() if l.startswith(prop+' ')][:2]
+        elif 'BOUNDED:' in out and res != 'alarm':
+            res = 'bounded'; notes += [l[:200] for l in out.splitlines() if l.startswith('BOUNDED:')][:2]
+    m['result'] = res; m['result_notes'] = notes
+    json.dump(m, open(d+'/meta.json','w'), indent=1)
+    return d, res, notes
+ds = [d for base in dirs for d in sorted(glob.glob('/verif/%s/*' % base))]
+with ThreadPoolExecutor(int(os.environ.get('JOBS', '4'))) as ex:
+    for d, res, notes in ex.map(one, ds):
         tot[res] += 1
-        print(os.path.basename(d), res, '|', (notes[0][:120] if notes else ''))
+        print(os.path.basename(d), res, '|', (notes[0][:120] if notes else ''), flush=True)
 print(tot)
